@@ -190,14 +190,68 @@ theorem finishTask_date_some (e : Env) (σ : St) (t : Nat) (w : Walk) (before : 
       e.time w.cur + roundHalfEven ((σ.led.get r w.cur).used - a + needSecs e σ t w before r) := by
   rw [finishTask_date e σ t w before r hlast, hu]
 
-theorem scheduleSlot_finv (e : Env) (wf : WF e) (σ : St) (t r : Nat) (w : Walk) (vis : List Int)
+/-- the task's reported dates are ordered -/
+def Ordered (σ : St) (t : Nat) : Prop :=
+  ∃ s v, (σ.tst t).start = some s ∧ (σ.tst t).stop = some v ∧ s ≤ v
+
+theorem bookSlot_used (e : Env) (σ : St) (r : Nat) (i : Int) (t : Nat) :
+    ((bookSlot e σ r i t).1.led.get r i).used = (σ.led.get r i).used + availSecs e.G (σ.led.get r i) := by
+  rw [bookSlot_eq, incAll_led]
+  simp [Ledger.get_set, Slot.book]
+
+theorem reserve_used_ge (s : Slot) (c : Rat) : c ≤ (s.reserve c).used := by
+  unfold Slot.reserve
+  split
+  · exact Rat.le_refl
+  · rename_i h; exact Rat.not_lt.mp h
+
+/-- the first booking of a task in the slot of its dependency bound leaves the part of the slot before the bound alone: what
+    was used before the task's own seconds is at least the offset -/
+theorem bookResource_usedBefore (e : Env) (σ : St) (t : Nat) (w : Walk) (r : Nat)
+    (hnone : usageOf (σ.led.get r w.cur).usage t = none) (ho : w.offset > 0) (hd : w.done = 0)
+    (hb : usageOf ((bookResource e σ t w r).1.led.get r w.cur).usage t ≠ none) :
+    w.offset ≤ ((bookResource e σ t w r).1.led.get r w.cur).used - taskSecs ((bookResource e σ t w r).1.led.get r w.cur) t := by
+  rw [bookResource_books_iff] at hb ⊢
+  have hn' : usageOf ((reserveStep σ w r).led.get r w.cur).usage t = none := by rw [reserveStep_get]; exact hnone
+  split at hb
+  · rename_i hc
+    simp only [hc, if_true]
+    unfold taskSecs
+    rw [bookSlot_entry, usageOf_append_none _ _ _ hn', bookSlot_used]
+    simp only [Option.getD_some]
+    have : w.offset ≤ ((reserveStep σ w r).led.get r w.cur).used := by
+      unfold reserveStep
+      have hcond : (decide (w.offset > 0) && w.done == 0) = true := by simp [ho, hd]
+      simp only [hcond, if_true, Ledger.get_set, and_self]
+      exact reserve_used_ge _ _
+    grind
+  · exact absurd hn' hb
+
+theorem bookResources_single_usedBefore (e : Env) (σ : St) (t : Nat) (w : Walk) (r : Nat)
+    (ha : (e.taskD t).hasAlloc = true) (hsel : selectedOf e σ t w = [r])
+    (hnone : usageOf (σ.led.get r w.cur).usage t = none) (ho : w.offset > 0) (hd : w.done = 0)
+    (hb : usageOf ((bookResources e σ t w).1.led.get r w.cur).usage t ≠ none) :
+    w.offset ≤ ((bookResources e σ t w).1.led.get r w.cur).used - taskSecs ((bookResources e σ t w).1.led.get r w.cur) t := by
+  rw [bookResources_single e σ t w r ha hsel] at hb ⊢
+  simp only [] at hb ⊢
+  have h := bookResource_usedBefore e σ t { w with selected := some [r] } r hnone ho hd
+  split at hb
+  · simp only [markStart_led] at hb ⊢
+    rename_i hc
+    simp only [hc, if_true, markStart_led]
+    exact h hb
+  · rename_i hc
+    simp only [hc, if_false]
+    exact h hb
+
+theorem scheduleSlot_finv2 (e : Env) (wf : WF e) (σ : St) (t r : Nat) (w : Walk) (vis : List Int)
     (hinv : Inv e σ) (hlf : (e.taskD t).leaf = true) (hw : WalkOk e t w)
     (ha : (e.taskD t).hasAlloc = true) (hm : (e.taskD t).milestone = false)
     (hsel : selectedOf e σ t w = [r]) (hlt : w.done < (e.taskD t).effort) (hpos : 0 < (e.taskD t).effort)
     (h : FInv e σ t r w vis) :
     ((scheduleSlot e σ t w).2.2 = true →
         FInv e (scheduleSlot e σ t w).1 t r (advance true w (scheduleSlot e σ t w).2.1) (w.cur :: vis)) ∧
-    ((scheduleSlot e σ t w).2.2 = false → Framed e (scheduleSlot e σ t w).1 t r) := by
+    ((scheduleSlot e σ t w).2.2 = false → Framed e (scheduleSlot e σ t w).1 t r ∧ Ordered (scheduleSlot e σ t w).1 t) := by
   have hsa := scheduleSlot_acc e wf σ t r true w vis hinv hlf hw ha hm hsel hlt hpos h.acc
   obtain ⟨hfst, hnn1⟩ := book_fst e wf σ t r w vis hinv hlf hw ha hsel hpos h
   have hcur_notin : w.cur ∉ vis := by
@@ -284,7 +338,23 @@ theorem scheduleSlot_finv (e : Env) (wf : WF e) (σ : St) (t r : Nat) (w : Walk)
       rcases List.mem_cons.mp hfb with hh | hh
       · omega
       · have := h.acc.before fb hh; simp only [if_true] at this; omega
-    refine ⟨fb, w.cur, hfb_le, hfbne, ?_, ?_, ?_, ?_⟩
+    -- the end date: `time cur + round(X)` with `0 ≤ X ≤ G`
+    have hs := hb.slot r w.cur
+    have hle_sum := mem_le_usageSum _ hs.entries_nonneg _ (usageOf_mem hu)
+    have h1s := hs.sum_le
+    have h2s := hs.used_le
+    simp only [] at hle_sum
+    have hx0 : 0 ≤ ((bookResources e σ t w).1.led.get r w.cur).used - taskSecs ((bookResources e σ t w).1.led.get r w.cur) t +
+        ((e.taskD t).effort - w.done) / ((e.resD r).eff / 3600) := by grind
+    have hx1 : ((bookResources e σ t w).1.led.get r w.cur).used - taskSecs ((bookResources e σ t w).1.led.get r w.cur) t +
+        ((e.taskD t).effort - w.done) / ((e.resD r).eff / 3600) ≤ (e.G : Rat) := by grind
+    have hb1 := roundHalfEven_nonneg _ hx0
+    have hb2 := roundHalfEven_mono_int _ e.G hx1
+    have hdate : (finishTask e (bookResources e σ t w).1 t (bookResources e σ t w).2 w.done true).2 =
+        e.time w.cur + roundHalfEven (((bookResources e σ t w).1.led.get r w.cur).used -
+          taskSecs ((bookResources e σ t w).1.led.get r w.cur) t + ((e.taskD t).effort - w.done) / ((e.resD r).eff / 3600)) := by
+      rw [finishTask_date_some e _ t _ w.done r _ hlast (by rw [hcurw]; exact hu), hcurw, hneed]
+    refine ⟨⟨fb, w.cur, hfb_le, hfbne, ?_, ?_, ?_, ?_⟩, ?_⟩
     · intro hc2; have hc3 := (hent w.cur).mp hc2; rw [hu] at hc3; cases hc3
     · intro i hi
       have hin : i ∈ w.cur :: vis := by
@@ -297,24 +367,100 @@ theorem scheduleSlot_finv (e : Env) (wf : WF e) (σ : St) (t r : Nat) (w : Walk)
       · have := h.acc.before i hh; simp only [if_true] at this; omega
     · exact ⟨_, hst, markDate_in_slot e fb o ho0 ho1⟩
     · refine ⟨_, hstop, ?_⟩
-      rw [finishTask_date_some e _ t _ w.done r _ hlast (by rw [hcurw]; exact hu), hcurw, hneed]
-      have hs := hb.slot r w.cur
-      have hle_sum := mem_le_usageSum _ hs.entries_nonneg _ (usageOf_mem hu)
-      have h1 := hs.sum_le
-      have h2 := hs.used_le
-      simp only [] at hle_sum
-      have hx0 : 0 ≤ ((bookResources e σ t w).1.led.get r w.cur).used - taskSecs ((bookResources e σ t w).1.led.get r w.cur) t +
-          ((e.taskD t).effort - w.done) / ((e.resD r).eff / 3600) := by grind
-      have hx1 : ((bookResources e σ t w).1.led.get r w.cur).used - taskSecs ((bookResources e σ t w).1.led.get r w.cur) t +
-          ((e.taskD t).effort - w.done) / ((e.resD r).eff / 3600) ≤ (e.G : Rat) := by grind
-      have hb1 := roundHalfEven_nonneg _ hx0
-      have hb2 := roundHalfEven_mono_int _ e.G hx1
-      rw [time_succ]
+      rw [hdate, time_succ]
       omega
+    · -- start ≤ end
+      refine ⟨_, _, hst, hstop, ?_⟩
+      rw [hdate]
+      by_cases hlt2 : fb < w.cur
+      · -- the first booking lies in an earlier slot
+        have h3 := (markDate_in_slot e fb o ho0 ho1).2
+        have h4 : e.time (fb + 1) ≤ e.time w.cur := time_mono e wf _ _ (by omega)
+        omega
+      · -- the task begins and finishes in this slot
+        have hfc : fb = w.cur := by omega
+        have hw0 : w.done = 0 := by
+          apply Classical.byContradiction
+          intro hne0
+          obtain ⟨fb0, hfb0, hne0', _, _⟩ := h.fst.2 hne0
+          have hb0 := h.acc.before fb0 hfb0
+          simp only [if_true] at hb0
+          have := hmin fb0 (List.mem_cons_of_mem _ hfb0) (by
+            intro hcx
+            apply hne0'
+            have hvis0 : (bookResources e σ t w).1.led.get r fb0 = σ.led.get r fb0 := by
+              apply hframe; intro hh; exact hcur_notin (hh.2 ▸ hfb0)
+            rw [← hvis0]; exact (hent fb0).mp hcx)
+          omega
+        obtain ⟨hs1, hs2⟩ := bookResources_start e σ t w h.inb h.fwd hpos
+        have hstart2 : ((bookResources e σ t w).1.tst t).start = some (markDate e w.cur w.offset) := by
+          rcases hs2 hw0 with ⟨hd0, _⟩ | hs3
+          · exact absurd hd0 hne1
+          · exact hs3
+        rw [hstart] at hst
+        rw [hstart2] at hst
+        have hmd : markDate e fb o = markDate e w.cur w.offset := by
+          have := hst; simp only [Option.some.injEq] at this; exact this.symm
+        rw [hmd]
+        unfold markDate
+        by_cases hopos : w.offset > 0
+        · simp only [hopos, if_true]
+          have hub := bookResources_single_usedBefore e σ t w r ha hsel hnone hopos hw0 (by rw [hu]; simp)
+          have hneedpos : 0 ≤ ((e.taskD t).effort - w.done) / ((e.resD r).eff / 3600) := by
+            rw [← hneed]
+            have := fe.1
+            grind
+          have hfl : w.offset.floor ≤ (((bookResources e σ t w).1.led.get r w.cur).used -
+              taskSecs ((bookResources e σ t w).1.led.get r w.cur) t + ((e.taskD t).effort - w.done) / ((e.resD r).eff / 3600)).floor :=
+            Rat.floor_monotone (by grind)
+          have := (roundHalfEven_bounds (((bookResources e σ t w).1.led.get r w.cur).used -
+              taskSecs ((bookResources e σ t w).1.led.get r w.cur) t + ((e.taskD t).effort - w.done) / ((e.resD r).eff / 3600))).1
+          omega
+        · simp only [hopos, if_false]
+          omega
+
+theorem scheduleSlot_finv (e : Env) (wf : WF e) (σ : St) (t r : Nat) (w : Walk) (vis : List Int)
+    (hinv : Inv e σ) (hlf : (e.taskD t).leaf = true) (hw : WalkOk e t w)
+    (ha : (e.taskD t).hasAlloc = true) (hm : (e.taskD t).milestone = false)
+    (hsel : selectedOf e σ t w = [r]) (hlt : w.done < (e.taskD t).effort) (hpos : 0 < (e.taskD t).effort)
+    (h : FInv e σ t r w vis) :
+    ((scheduleSlot e σ t w).2.2 = true →
+        FInv e (scheduleSlot e σ t w).1 t r (advance true w (scheduleSlot e σ t w).2.1) (w.cur :: vis)) ∧
+    ((scheduleSlot e σ t w).2.2 = false → Framed e (scheduleSlot e σ t w).1 t r) :=
+  ⟨(scheduleSlot_finv2 e wf σ t r w vis hinv hlf hw ha hm hsel hlt hpos h).1,
+   fun hc => ((scheduleSlot_finv2 e wf σ t r w vis hinv hlf hw ha hm hsel hlt hpos h).2 hc).1⟩
 
 end SP
 
 namespace SP
+
+theorem walkLoop_framed2 (e : Env) (wf : WF e) (t r : Nat) (fuel : Nat) (σ : St) (w : Walk) (vis : List Int)
+    (hinv : Inv e σ) (hlf : (e.taskD t).leaf = true) (hw : WalkOk e t w)
+    (ha : (e.taskD t).hasAlloc = true) (hm : (e.taskD t).milestone = false)
+    (hsel : selectedOf e σ t w = [r]) (hlt : w.done < (e.taskD t).effort) (hpos : 0 < (e.taskD t).effort)
+    (h : FInv e σ t r w vis) (hok : (walkLoop e t true fuel σ w).2.2 = true) :
+    Framed e (walkLoop e t true fuel σ w).1 t r ∧ Ordered (walkLoop e t true fuel σ w).1 t := by
+  induction fuel generalizing σ w vis with
+  | zero => simp [walkLoop] at hok
+  | succ f ih =>
+    have hs := scheduleSlot_inv e σ t w wf hinv hlf hw
+    have hsa := scheduleSlot_acc e wf σ t r true w vis hinv hlf hw ha hm hsel hlt hpos h.acc
+    have hsf := scheduleSlot_finv2 e wf σ t r w vis hinv hlf hw ha hm hsel hlt hpos h
+    unfold walkLoop at hok ⊢
+    simp only [] at hok ⊢
+    by_cases hc : (scheduleSlot e σ t w).2.2 = true
+    · simp only [hc, Bool.not_true, Bool.false_eq_true, if_false] at hok ⊢
+      obtain ⟨_, hsel', hlt'⟩ := hsa.1 hc
+      have hw1 := hs.2 hc
+      by_cases hout : ((advance true w (scheduleSlot e σ t w).2.1).cur < 0 || (advance true w (scheduleSlot e σ t w).2.1).cur > e.upper) = true
+      · simp only [hout, if_true] at hok
+        exact Bool.noConfusion hok
+      · simp only [hout, Bool.false_eq_true, if_false] at hok ⊢
+        exact ih _ _ _ hs.1 (walkOk_advance e t wf _ _ _ hw1)
+          (selectedOf_some e _ t _ [r] hsel') hlt' (hsf.1 hc) hok
+    · have hc' : (scheduleSlot e σ t w).2.2 = false := by simpa using hc
+      simp only [hc', Bool.not_false, if_true] at hok ⊢
+      exact hsf.2 hc'
 
 theorem walkLoop_framed (e : Env) (wf : WF e) (t r : Nat) (fuel : Nat) (σ : St) (w : Walk) (vis : List Int)
     (hinv : Inv e σ) (hlf : (e.taskD t).leaf = true) (hw : WalkOk e t w)
@@ -359,6 +505,64 @@ theorem Framed.of_same {e : Env} {σ σ' : St} {t r : Nat} (hse : SameEntries σ
 
 /-- **one forward task, framing**: a successful `scheduleTask` of a forward effort task with the single resource `r`,
     started with nothing of the task on `r`, leaves it framed -/
+theorem scheduleTask_framed_sel2 (e : Env) (wf : WF e) (σ : St) (t r : Nat)
+    (hinv : Inv e σ) (hlf : (e.taskD t).leaf = true) (hal : (e.taskD t).hasAlloc = true)
+    (hnm : (e.taskD t).milestone = false) (hpos : 0 < (e.taskD t).effort)
+    (hsel0 : selectBest e (σ.setT t (σ.tst t)) (e.taskD t).alloc (e.taskD t).alt (e.taskD t).effort (initCursor e σ t).1 = [r])
+    (hb : t < σ.ts.size) (hf : (σ.tst t).forward = true)
+    (hnd : (σ.tst t).done = false) (hclean : ∀ i, usageOf (σ.led.get r i).usage t = none)
+    (hok : (scheduleTask e σ t).2 = true) : Framed e (scheduleTask e σ t).1 t r ∧ Ordered (scheduleTask e σ t).1 t := by
+  have hz : ((e.taskD t).effort == 0) = false := by
+    simp only [beq_eq_false_iff_ne, ne_eq]; grind
+  have hpc : preStartCursor e σ t (initCursor e σ t).1 = (initCursor e σ t).1 := by
+    unfold preStartCursor; simp [hal]
+  have hpt : preStartT e σ t (initCursor e σ t).1 = σ.tst t := by
+    unfold preStartT; simp [hal]
+  have hoff := initCursor_off e σ t wf
+  unfold scheduleTask at hok ⊢
+  simp only [hnd, Bool.false_eq_true, if_false, hpc, hpt, hf] at hok ⊢
+  have h0 : Inv e (σ.setT t (σ.tst t)) := inv_setT _ _ hinv
+  by_cases hout : ((initCursor e σ t).1 < 0 || (initCursor e σ t).1 > e.upper) = true
+  · simp only [hout, if_true] at hok
+    exact Bool.noConfusion hok
+  · simp only [hout, Bool.false_eq_true, if_false] at hok ⊢
+    have hw : WalkOk e t { cur := (initCursor e σ t).1, offset := (initCursor e σ t).2 } :=
+      ⟨hoff.1, hoff.2, wf.effort_nonneg t⟩
+    have hfi : FInv e (σ.setT t (σ.tst t)) t r { cur := (initCursor e σ t).1, offset := (initCursor e σ t).2 } [] := by
+      refine ⟨⟨fun i _ => hclean i, fun i hi => absurd hi List.not_mem_nil,
+          by show (0 : Rat) = sumOver _ r t [] / 3600 * (e.resD r).eff; simp only [sumOver]; grind, List.nodup_nil⟩,
+        by rw [size_setT]; exact hb, by rw [tst_setT_same _ _ _ hb]; exact hf, Rat.le_refl,
+        ⟨fun _ i hi => absurd hi List.not_mem_nil, fun hne => absurd rfl hne⟩⟩
+    have hs0 : selectedOf e (σ.setT t (σ.tst t)) t { cur := (initCursor e σ t).1, offset := (initCursor e σ t).2 } = [r] := by
+      unfold selectedOf; exact hsel0
+    by_cases hfin : (walkLoop e t true (e.size.toNat + 3) (σ.setT t (σ.tst t))
+        { cur := (initCursor e σ t).1, offset := (initCursor e σ t).2 }).2.2 = true
+    · simp only [hfin, Bool.not_true, Bool.false_eq_true, if_false] at hok ⊢
+      obtain ⟨hfr, ⟨s0, v0, hs0', hv0', hle0⟩⟩ := walkLoop_framed2 e wf t r _ _ _ [] h0 hlf hw hal hnm hs0 hpos hpos hfi hfin
+      have hsz : t < (walkLoop e t true (e.size.toNat + 3) (σ.setT t (σ.tst t))
+          { cur := (initCursor e σ t).1, offset := (initCursor e σ t).2 }).1.ts.size := by
+        rw [(walkLoop_frame e t true _ _ _).2.2.2.2, size_setT]; exact hb
+      obtain ⟨fb, last, h1, h2, h3, h4, ⟨v, hv, hv1, hv2⟩, ⟨u, hu, hu1, hu2⟩⟩ := hfr
+      refine ⟨⟨fb, last, h1, h2, h3, h4, ⟨v, ?_, hv1, hv2⟩, ⟨u, ?_, hu1, hu2⟩⟩, ⟨s0, v0, ?_, ?_, hle0⟩⟩
+      · rw [tst_setT_same _ _ _ hsz]
+        unfold finalT
+        simp only [if_true, hv, Option.isNone_some, Bool.false_eq_true, if_false]
+      · rw [tst_setT_same _ _ _ hsz]
+        unfold finalT
+        simp only [if_true, hv, Option.isNone_some, Bool.false_eq_true, if_false]
+        exact hu
+      · rw [tst_setT_same _ _ _ hsz]
+        unfold finalT
+        simp only [if_true, hs0', Option.isNone_some, Bool.false_eq_true, if_false]
+      · rw [tst_setT_same _ _ _ hsz]
+        unfold finalT
+        simp only [if_true, hs0', Option.isNone_some, Bool.false_eq_true, if_false]
+        exact hv0'
+    · have hfin' : (walkLoop e t true (e.size.toNat + 3) (σ.setT t (σ.tst t))
+        { cur := (initCursor e σ t).1, offset := (initCursor e σ t).2 }).2.2 = false := by simpa using hfin
+      simp only [hfin', Bool.not_false, if_true] at hok
+      exact Bool.noConfusion hok
+
 theorem scheduleTask_framed_sel (e : Env) (wf : WF e) (σ : St) (t r : Nat)
     (hinv : Inv e σ) (hlf : (e.taskD t).leaf = true) (hal : (e.taskD t).hasAlloc = true)
     (hnm : (e.taskD t).milestone = false) (hpos : 0 < (e.taskD t).effort)
